@@ -28,7 +28,7 @@ def main():
     jobs = []
     for sh in range(4):
         exe = build.harness("plain", "c09_protocol", ["c09_protocol.cc"])
-        jobs.append(("plain-gA", 9 if quick else 12, 0, exe, sh, 4))
+        jobs.append(("plain-gA", 12 if quick else 14, 0, exe, sh, 4))
     for variant, depth, exp in plans:
         exe = build.harness(variant, "c09_protocol", ["c09_protocol.cc"])
         nsh = NCPU if variant == "plain" else max(2, NCPU // 4)
